@@ -38,6 +38,17 @@ def gen_banner(rng):
     """Well-formed identification string -> bytes (including CR LF and optional trailing bytes)."""
     proto = rng.choice([b"2.0", b"1.99"])
     vext = bytes(rng.choice(b"0123456789.") for _ in range(rng.choice([0, 0, 0, 1, 3])))
+    if rng.random() < 0.15:
+        # identification strings whose total length (CR LF included) sits at a boundary: RFC 4253 caps them at 255 bytes
+        # "including CR LF", real servers accept more - every length is a request here
+        T = rng.choice([253, 254, 255, 255, 256, 257, 127, 128, 129, 511, 512, 513, 1023, 1024, 1025])
+        base = len(b"SSH-" + proto + vext + b"-") + 2
+        clen = rng.randrange(0, 20) if rng.random() < 0.5 else None
+        slen = T - base - (0 if clen is None else 1 + clen)
+        out = b"SSH-" + proto + vext + b"-" + _no_crlf(_fill(rng, slen, (0x20, 0x0A, 0x0D)))
+        if clen is not None:
+            out += b" " + _fill(rng, clen, (0x0A, 0x0D))
+        return out + b"\r\n" + (_fill(rng, rng.randrange(1, 30), ()) if rng.random() < 0.2 else b"")
     big = rng.random() < 0.06          # identification strings that do not fit one 1500-byte frame
     soft = _no_crlf(_fill(rng, rng.choice([rng.randrange(0, 40), rng.randrange(0, 40), rng.randrange(40, 250)]) if not big or rng.random() < 0.5
                           else rng.randrange(1400, 3700), (0x20, 0x0A)))
